@@ -86,8 +86,17 @@ int32 psDiffMsecs(psTime_t then, psTime_t now, void *userPtr)
 {
     __int64 diff;
 
-    diff = now.QuadPart - then.QuadPart;
-    return (int32) ((diff * 1000) / hiresFreq.QuadPart);
+    diff = ((now.QuadPart - then.QuadPart) * 1000) / hiresFreq.QuadPart;
+    /* Saturate instead of wrapping around (see the POSIX implementation) */
+    if (diff > 0x7FFFFFFF)
+    {
+        return 0x7FFFFFFF;
+    }
+    if (diff < -0x7FFFFFFF)
+    {
+        return -0x7FFFFFFF;
+    }
+    return (int32) diff;
 }
 
 int32 psCompareTime(psTime_t a, psTime_t b, void *userPtr)
